@@ -135,6 +135,50 @@ def case_inside(nglets: int, depths: List[int], target: int, ask_depth: int) -> 
         finish(w)
 
 
+def case_parent_state(state: int, depth: int) -> Optional[str]:
+    """extract(current greenlet) from inside a greenlet whose PARENT is 0: the main greenlet,
+    1: not yet started, 2: already dead.  Always exactly its own portion of the running stack."""
+    main = greenlet.getcurrent()
+    out: Dict[str, Any] = {}
+
+    def entry() -> Any:
+        def ask(d: int) -> Any:
+            if d > 0:
+                return ask(d - 1)
+            me = sys._getframe(0)
+            st = stackscope.extract(greenlet.getcurrent())
+            exp = []
+            f: Any = me
+            while f is not None:
+                exp.append(f)
+                f = f.f_back
+            out["why"] = compare(st, exp[::-1], f"current greenlet whose parent is {['main', 'unstarted', 'dead'][state]}")
+            main.switch()
+
+        return ask(depth)
+
+    if state == 0:
+        parent: Any = main
+    elif state == 1:
+        parent = greenlet.greenlet(lambda *a: None)
+    else:
+        parent = greenlet.greenlet(lambda: None)
+        parent.switch()
+    g = greenlet.greenlet(entry, parent=parent)
+    g.switch()
+    try:
+        # also from outside while suspended: its own frames
+        if out.get("why") is None:
+            st = stackscope.extract(g)
+            out["why"] = compare(st, gr_walk(g), "the same greenlet, suspended, asked from main")
+        return out.get("why")
+    finally:
+        try:
+            g.throw(greenlet.GreenletExit)
+        except Exception:
+            pass
+
+
 def case_lifecycle(kind: int) -> Optional[str]:
     if kind == 0:  # unstarted
         g = greenlet.greenlet(lambda: None)
@@ -181,7 +225,18 @@ def _shard(sh: Dict[str, Any]) -> Dict[str, Any]:
     N, D = sh["nglets"], sh["maxdepth"]
 
     def harness(e: Engine) -> None:
-        mode = e.choice("asker", 3)  # 0 outside (main), 1 inside, 2 lifecycle
+        mode = e.choice("asker", 4)  # 0 outside (main), 1 inside, 2 lifecycle, 3 parent state of the current greenlet
+        if mode == 3:
+            if N != 1:
+                e.assume(False)
+            stt, dep = e.choice("parent_state", 3), e.choice("depth", D + 1)
+            why = case_parent_state(stt, dep)
+            case = {"mode": 3, "state": stt, "depth": dep}
+            if len(samples) < 1:
+                samples.append(case)
+            if why and len(cex) < 4:
+                cex.append(dict(case, why=why))
+            return
         if mode == 2:
             if N != 1:
                 e.assume(False)
@@ -216,7 +271,7 @@ def run(rep: Any, tier: str, seed: int) -> None:
     N = 3 if tier == "quick" else 4
     D = 2 if tier == "quick" else 3
     rep.bounds = {"parent chain": f"1..{N} nested greenlets", "call depth per greenlet": f"0..{D}", "asker": ["main greenlet (outside)", "the target itself", "a descendant, 0..1 calls deeper"],
-                  "lifecycle": ["unstarted", "dead", "child greenlet running in another thread", "main greenlet of another thread running there"]}
+                  "parent of the current greenlet": ["main", "unstarted", "dead"], "lifecycle": ["unstarted", "dead", "child greenlet running in another thread", "main greenlet of another thread running there"]}
     rep.outside = ["greenback await_ bridges (need a Trio task with a portal; same reasons as C14)", "PyPy greenlets", "chains deeper than the bound"]
     rep.assumptions = ["low solver leverage: finite scenario product certified complete by the solver"]
     res = par.run_shards("harness.c15", "_shard", [{"nglets": n, "maxdepth": D} for n in range(1, N + 1)])
@@ -225,7 +280,9 @@ def run(rep: Any, tier: str, seed: int) -> None:
 
 
 def replay(c: Dict[str, Any]) -> Dict[str, Any]:
-    if c["mode"] == 2:
+    if c["mode"] == 3:
+        why = case_parent_state(c["state"], c["depth"])
+    elif c["mode"] == 2:
         why = case_lifecycle(c["kind"])
     elif c["mode"] == 0:
         why = case_outside(c["n"], c["depths"], c["target"])
